@@ -95,3 +95,56 @@ prop( 'C18', [ 'T-RECORD', 'X-STATES' ],
               'INITIAL<...<COMPLETE<FAILED holds, truthiness is state < COMPLETE, only declared constants are assigned to the state.',
       not_decided='exactly-once / in-order / on-time delivery against the clock (schedule and clock dependent).',
       technique='writer/reader field-table agreement (AST patterns); state-table exhaustiveness' )
+
+prop( 'C02', [ 'G-CHUNK', 'G-FRAME', 'P-ACT', 'P-ONE', 'R-SENT', 'R-PROGRESS', 'G-PRIMS' ],
+      decides='G-CHUNK: in the stream-fed machines (enip_machine incl. enip_header; tnet_machine) no state has both an input edge and a '
+              'None edge and no transition predicate inspects the source - i.e. no state\'s successor depends on whether the next byte has '
+              'arrived yet (necessary for chunk independence); G-FRAME: the header sub-graph is the single unconditional chain of the six '
+              'spec fields (24 octets, terminal only after the last), the payload is octets( repeat=<header length> ), terminal with no '
+              'successor, one frame per run; P-ACT/P-ONE: enip_process is called exactly once per loop iteration and only after the '
+              'frame-parsing loop, received blocks are chained, EOF sets the eof flag, the failure handler calls the processor only with '
+              'empty data and re-raises; the client returns a response only when its frame machine is terminal, drops its engine on any '
+              'framing exception, ends silently only on EOF between frames and refuses to be released with a partial frame; R-SENT: net '
+              '`sent` accounting of peeking/chaining (exactly one increment per delivered symbol on every path, FIFO chaining, LIFO '
+              'push-back, net-zero peek); R-PROGRESS: the three no-progress guards and NonTerminal.',
+      not_decided='that the generator protocol re-delivers the same parse for every partition of the stream (a semantic property of '
+                  'state.run\'s interleaving of yields - needs execution); kernel/socket behaviour.',
+      technique='grammar-graph extraction by abstract interpretation of the builder code + edge-kind analysis; path effect counting and '
+                'must-pass-through on the CFG; AST idiom matching on the framework loops' )
+
+prop( 'C07', [ 'A-OFFSETS', 'P-ORDER', 'P-EACH', 'P-CLOSURE', 'S-STATUS' ],
+      decides='A-OFFSETS: the two offset-table emitters of Message_Router.produce and the two slice bounds of the parser closure '
+              'normalise (linear-expression normaliser) to 2 + 2*N relative to the running offset, the count field is the number of '
+              'offsets, members are sliced between consecutive offsets (last to the end) and appended in order; P-ORDER: in both produce '
+              'loops iteration order and accumulation direction pair up; P-EACH: Message_Router.request iterates data.multiple.request '
+              'itself and dispatches each member exactly once per iteration, unconditionally, to the routed target; P-CLOSURE: on the '
+              'no-exception path the member-parsing closure is posted (parser locked) xor run, exactly once, each member parsed under the '
+              'target parser\'s lock and asserted terminal; S-STATUS: each request() converts its own exceptions to a status, so a failing '
+              'member cannot unwind the bundle loop.',
+      not_decided='equality of each member\'s reply with its standalone reply, and of the resulting tag state (dynamic).',
+      technique='linear normalisation of offset arithmetic; iteration/accumulation idiom pairing; per-iteration effect counting on the CFG' )
+
+prop( 'C08', [ 'G-PROGRESS', 'G-BOUND', 'G-REF', 'R-PROGRESS', 'R-LIMIT', 'E-CONTAIN', 'S-STATUS', 'W-ATTR', 'D-VALIDATE', 'G-PRIMS' ],
+      decides='termination-shape, containment and no-corruption clauses.  G-PROGRESS: in every extracted grammar level (all 25 registered '
+              'service machines and 28 stand-alone machines) there is no cycle of non-consuming states, every data-counted repeat consumes '
+              '>= 1 symbol per cycle, every sub-machine has a terminal state; G-BOUND/G-REF: every unbounded consumer lies inside a limit '
+              'that resolves to a parsed integer field; R-PROGRESS/R-LIMIT: the framework\'s no-progress guards and limit chain have the '
+              'required shape; E-CONTAIN: the connection handler\'s finally closes the socket and drops its stats entry, the per-connection '
+              'runner swallows exceptions, no process-terminating call exists in the request-processing modules; S-STATUS/W-ATTR/D-VALIDATE: '
+              'exceptions become error replies and tags change only in validated write-service branches.',
+      not_decided='wall-clock bounds, recursion depth of nested bundles, memory, that other sessions keep being served (scheduling).',
+      technique='SCC/cycle analysis with a consumption model over extracted grammar graphs; reference resolution; CFG typestate; zero-count call rules' )
+
+prop( 'C10', [ 'G-BOUND', 'G-REF', 'R-LIMIT', 'R-SENT', 'R-REPEAT', 'G-PRIMS' ],
+      decides='G-BOUND: every unbounded consumer (element loop, ".*" string, raw-to-end payload) of every run-root machine lies inside a '
+              'limit naming a parsed length or a constant, or is the tail of a machine run on a finite buffer (one documented exemption: '
+              'the unrecognised CPF item, which is not given a limit); G-REF: each of the ~1250 data-path references in limit=/repeat=/'
+              'move_if( source= ) resolves, through context composition and ".." back-tracking, to a field the same machine parses - an '
+              'integer field for limit/repeat (free reference CIP "...length" discharged at the run site); R-LIMIT: in state.run the '
+              'ending only shrinks, is the absolute position sent+limit, is forwarded to delegate and transition, transition looks up the '
+              'None key once sent >= ending (comparator checked), delegate forwards ending to sub-states, post-run assert; R-SENT: net sent '
+              'accounting; R-REPEAT: cycle reset, exactly one increment per cycle, loop while cycle < final, terminal only after the last cycle.',
+      not_decided='that the generator machinery honours `ending` for every input - only that each link of the chain that must '
+                  'forward/compare it does.',
+      technique='reference resolution over extracted grammar graphs; boundedness analysis with a consumption model; AST idiom matching and '
+                'CFG effect counting on the framework' )
